@@ -55,7 +55,7 @@ func CtxWithDeadline(parent context.Context, d time.Time) (context.Context, cont
 		return c, func() { cancel() }
 	}
 	hb(&timeHB)
-	t := &vtimer{when: d, armed: true}
+	t := &vtimer{when: d, armed: true, inline: true}
 	t.f = func() {
 		if inner.Err() == nil {
 			c.expired = true
